@@ -626,8 +626,11 @@ pub fn run_property<P: Prop>(tier: Tier, seed: u64) -> Outcome {
             let dir = replay_dir(P::ID);
             let _ = std::fs::create_dir_all(&dir);
             let path = dir.join(format!("{}-{}-seed{}-extra.json", P::ID, tier.name(), seed));
+            // `readable` may carry a replayable case under "case"
             let doc = json!({"property": P::ID, "seed": seed, "tier": tier.name(),
-                "failure": f.to_string(), "extra_case": readable});
+                "failure": f.to_string(),
+                "case": readable.get("case").cloned().unwrap_or(Value::Null),
+                "readable": readable.get("readable").cloned().unwrap_or(readable.clone())});
             let _ = std::fs::write(&path, serde_json::to_string_pretty(&doc).unwrap());
             violations.push((path.display().to_string(), f.to_string()));
         }
